@@ -34,7 +34,7 @@ prop(
     "C01",
     "exploration",
     "cases = (voice: bundled | PDF-perturbed copy | generated voice over the full {2,3 streams}x{stage 0..3}x{1..7 states}x{4 window sets} grid | random generated) x (utterance: corpus window / shuffle / field-recombination / breath group; structurally random labels for the no-panic part) x (random point or corner of the condition envelope, incl. alignment with random time annotations, whose frame counts are checked against the exact-integer alignment law on the annotation itself; with alignment on and no time on any label the model's own durations are expected whatever the speed); "
-    "non-trivial = at least one voiced frame and more frames than states; distinct by hash(voice description, condition, label text)",
+    "one utterance in four with F = 1 mod 4 is also pulled out of a generator (1..3 frames stepped, the rest by generate_all): no panic, frame-exact length; non-trivial = at least one voiced frame and more frames than states; distinct by hash(voice description, condition, label text)",
     [st("checked", death_is_violation=True)],
     [st("checked", death_is_violation=True), st("release", death_is_violation=True), st("asan", name="asan", args=["--sub", "synthetic", "--scale", "0.03"], env=ASAN_ENV, canary="asan", death_is_violation=True)],
     ["spectral stable range evaluated on 64 warped frequencies from the hooked trajectory (after the postfilter law)"],
@@ -119,7 +119,7 @@ prop(
 prop(
     "C10",
     "exploration",
-    "voice sets of 1..4: bundled + PDF-perturbed copies, identical copies, generated voices with equal metadata but different trees (also the same voice object listed twice in a row, and a copy of the first voice that carries another voice's duration model); dyadic weight vectors (k/64, exact sum 1) on the simplex, vertices, and with negative / over-unity components, set independently for duration, each stream and each GV; every duration / stream / GV Gaussian from the public Models API compared with the weighted average of the per-voice Gaussians within 8 eps * sum|terms|; vertex weights: parameters and waveform bit-equal to the first voice; interior weights end to end: the engine's hooked trajectories equal the public building blocks run on the weighted model (<= 1e-9) and its durations those of the weighted duration model, also when every stream's parameter weights are one vertex while duration and GV weights are interior; each generated voice of a set lists its trees in its own order; non-trivial = >= 2 voices whose selected Gaussians differ and a non-vertex weight",
+    "voice sets of 1..4: bundled + PDF-perturbed copies, identical copies, generated voices with equal metadata but different trees (also the same voice object listed twice in a row, and a copy of the first voice that carries another voice's duration model); after the valid set_duration a rejected one (one weight too many, sum still 1) follows, which must change nothing; dyadic weight vectors (k/64, exact sum 1) on the simplex, vertices, and with negative / over-unity components, set independently for duration, each stream and each GV; every duration / stream / GV Gaussian from the public Models API compared with the weighted average of the per-voice Gaussians within 8 eps * sum|terms|; vertex weights: parameters and waveform bit-equal to the first voice; interior weights end to end: the engine's hooked trajectories equal the public building blocks run on the weighted model (<= 1e-9) and its durations those of the weighted duration model, also when every stream's parameter weights are one vertex while duration and GV weights are interior; each generated voice of a set lists its trees in its own order; non-trivial = >= 2 voices whose selected Gaussians differ and a non-vertex weight",
     [st("checked")],
     [st("checked"), st("release")],
 )
@@ -172,7 +172,7 @@ prop(
 prop(
     "C20",
     "exploration",
-    "random call orders (1..40 calls) over every setter with arguments from {0, -0.0, +-subnormal, +-1e-300, +-1e300, 0.5, 1, 1+-ulp, 1e-6+-ulp, usize::MAX, random magnitudes} and every stream index in range, on the bundled voice and generated 2/3-stream voices; after every call all getters are compared with a reference Condition model and the volume getter must not move; fresh engines compared with the documented defaults and the header; distinct by call sequence",
+    "random call orders (1..40 calls, the interpolation-weight accessor called in between after one per-stream setter in three) over every setter with arguments from {0, -0.0, +-subnormal, +-1e-300, +-1e300, 0.5, 1, 1+-ulp, 1e-6+-ulp, usize::MAX, random magnitudes} and every stream index in range, on the bundled voice and generated 2/3-stream voices; after every call all getters are compared with a reference Condition model and the volume getter must not move; fresh engines compared with the documented defaults and the header; distinct by call sequence",
     [st("checked")],
     [st("checked"), st("release")],
 )
